@@ -57,6 +57,13 @@ theorem runStep_adv : ∀ st : Step, PAdv (runStep st)
     intro c s
     unfold runStep
     exact readInt_then_adv 4 (fun n s' => iter_adv (runSteps_adv body) n.toNat c s') s
+  | .arrB elem body => by
+    intro c s
+    unfold runStep
+    refine readInt_then_adv 4 (fun n s' => ?_) s
+    split
+    · exact Adv.refl s'
+    · exact iter_adv (runSteps_adv body) n.toNat c s'
   | .ifGe v body => by
     intro c s
     unfold runStep
@@ -221,6 +228,14 @@ theorem runStep_nok : ∀ st : Step, st.hasFail = false → PNoK (runStep st)
     unfold runStep
     have hb : hasFailList body = false := by simpa [Step.hasFail] using h
     exact readInt_then_nok 4 (fun n s' => iter_nok (runSteps_nok body hb) n.toNat c s') s
+  | .arrB elem body, h => by
+    intro c s
+    unfold runStep
+    have hb : hasFailList body = false := by simpa [Step.hasFail] using h
+    refine readInt_then_nok 4 (fun n s' => ?_) s
+    split
+    · rfl
+    · exact iter_nok (runSteps_nok body hb) n.toNat c s'
   | .ifGe v body, h => by
     intro c s
     unfold runStep
